@@ -434,7 +434,7 @@ type PathOp struct {
 type PathCase struct {
 	PathSep bool     `json:"pathsep,omitempty"`
 	NumKeys bool     `json:"numkeys,omitempty"`
-	MaxIdx  int64    `json:"maxidx,omitempty"` // 0: default (1024)
+	MaxIdx  int64    `json:"maxidx,omitempty"`  // 0: default (1024)
 	MaxIdx0 bool     `json:"maxidx0,omitempty"` // the option MaxIdx(0): index 0 is the only list index
 	Escape  bool     `json:"escape,omitempty"`  // the option EscapePath()
 	Ops     []PathOp `json:"ops"`
@@ -597,6 +597,15 @@ func runPath(c PathCase, r *runlog.R) error {
 			f.Unpack(&fm, vo...)
 			f.FlattenedKeys(vo...)
 			cfg.Child("l", -1, opts...)
+			// a fresh configuration below a ring member is not on the ring, its parent links lead into it: a
+			// reference and an error path read from there (the sub-check parent-rings varies these shapes)
+			below := ucfg.New()
+			below.Merge(map[string]interface{}{"r": "${p}"}, vo...)
+			if cfg.SetChild("below", -1, below, opts...) == nil {
+				below.String("r", -1, vo...)
+				below.Int("nope", -1, opts...)
+				below.Path(".")
+			}
 		}
 	}
 	r.NonTrivialIf(hostile && errs > 0)
@@ -608,13 +617,302 @@ func runPathQuiet(c PathCase) error { return runPath(c, &runlog.R{}) }
 
 var subPath = runlog.Register(&runlog.Sub[PathCase]{
 	Name:    "path-ops",
-	Rule:    "sequences of 1-8 calls of Set*/SetChild/Remove/typed getters/Child/Has/HasField/CountField/PathOf/Merge/NewFrom/Unpack/FlattenedKeys with names from 61 spellings (incl. bracketed ones) (negative, signed, hex/octal/binary, huge, dotted with empty and negative segments, blanks, non-ASCII digits) and indices from {MinInt64, -2^31, -5, -2, -1, 0..3, 1023..1025, 5000, 1e5, 1e6}, with and without PathSep, EnableNumKeys, EscapePath and MaxIdx in {default, 0, 1, 7, 5000}; half of the sequences stay with one list (removals, writes at and beyond its end, reads), and the state a sequence leaves behind is read completely (Unpack, FlattenedKeys, use as merge source, children); must return, and after every setter no list anywhere is longer than MaxIdx+1. Non-trivial: the sequence contains a hostile name or index and at least one call returned an error.",
+	Rule:    "sequences of 1-8 calls of Set*/SetChild/Remove/typed getters/Child/Has/HasField/CountField/PathOf/Merge/NewFrom/Unpack/FlattenedKeys with names from 61 spellings (incl. bracketed ones) (negative, signed, hex/octal/binary, huge, dotted with empty and negative segments, blanks, non-ASCII digits) and indices from {MinInt64, -2^31, -5, -2, -1, 0..3, 1023..1025, 5000, 1e5, 1e6}, with and without PathSep, EnableNumKeys, EscapePath and MaxIdx in {default, 0, 1, 7, 5000}; half of the sequences stay with one list (removals, writes at and beyond its end, reads), and the state a sequence leaves behind is read completely (Unpack, FlattenedKeys, use as merge source, children); at the end of every sequence the configuration is attached below a configuration it was the parent of before (a ring of stale parent links, D77), references and error paths are read on the ring and from a fresh configuration attached below a ring member; must return, and after every setter no list anywhere is longer than MaxIdx+1. Non-trivial: the sequence contains a hostile name or index and at least one call returned an error.",
 	Gen:     genPath,
 	Run:     runPath,
 	Journal: true,
 })
 
 func TestPathOps(t *testing.T) { subPath.Check(t, 40000, 3000000) }
+
+// ---------------------------------------------------------------------------
+// (d2) parent links that are no tree: rings of stale parent links (D77) and configurations below them
+//
+// A configuration keeps the parent it was attached to first. The parent links of all configurations therefore form a
+// functional graph, and histories of attach/detach/attach make every shape of such a graph reachable while the stored
+// data stays an ordinary tree: a ring of any length, chains of configurations that lead INTO a ring without being on
+// it, chains whose link into the ring is stale as well. Everything that walks parent links (the root lookup of a
+// reference, the path in an error message, Path/PathOf) has to return on all of them.
+
+type RingTail struct {
+	At    int    `json:"at"`              // the ring member (index mod ring length) the chain hangs below
+	Depth int    `json:"depth"`           // configurations in the chain
+	How   int    `json:"how,omitempty"`   // 0: fresh configurations attached top-down with SetChild; 1: one NewFrom of nested objects attached with SetChild; 2: nested objects merged into the ring member (the library creates the chain); 3: like 0, attached bottom-up
+	Ref   string `json:"ref"`             // text stored under "r" and as element of the list "l" (parsed under VarExp)
+	Early bool   `json:"early,omitempty"` // attached before the ring is closed
+	Cut   bool   `json:"cut,omitempty"`   // removed from the ring member again before it is read: its link into the ring is stale too
+}
+
+type RingCase struct {
+	Len    int        `json:"len"`              // configurations chained up before the ring is closed; 0: no ring at all (control)
+	Link   int        `json:"link,omitempty"`   // how ring members are attached to each other: 0 by name, 1 by a dotted name (the intermediate object joins the ring), 2 by name and index (a list joins the ring)
+	Detach int        `json:"detach,omitempty"` // how the first link is cut: 0 Remove, 1 overwritten by SetString, 2 overwritten by SetChild of another configuration, 3 overwritten by Merge
+	Tails  []RingTail `json:"tails"`
+	Env    bool       `json:"env,omitempty"` // the deepest configuration of every chain also serves as Env of a reference in an unrelated configuration
+}
+
+var ringRefs = []string{"${q}", "${q}", "${y.q}", "x${q}y", "${q:dflt}", "${nope}", "${${k}}", "${nope:?msg}", "${r}", "${x.q}", "${z.r}", "${q:+alt}", "${nope:${q}}", "$${q}", "plain", "${q.0}", "${l.0}", "${z0.r}", "${}"}
+
+func genRing(t *rapid.T) RingCase {
+	c := RingCase{
+		Len:    rapid.SampledFrom([]int{2, 3, 2, 4, 0, 2, 5, 3, 9}).Draw(t, "len"),
+		Link:   rapid.SampledFrom([]int{0, 1, 0, 2}).Draw(t, "link"),
+		Detach: rapid.SampledFrom([]int{0, 1, 0, 2, 3}).Draw(t, "detach"),
+		Env:    rapid.IntRange(0, 3).Draw(t, "env") == 3,
+	}
+	n := rapid.SampledFrom([]int{1, 1, 2, 1, 3}).Draw(t, "ntails")
+	for i := 0; i < n; i++ {
+		c.Tails = append(c.Tails, RingTail{
+			At:    rapid.IntRange(0, 4).Draw(t, "at"),
+			Depth: rapid.SampledFrom([]int{1, 2, 1, 3, 1, 18, 2, 40}).Draw(t, "depth"),
+			How:   rapid.IntRange(0, 3).Draw(t, "how"),
+			Ref:   rapid.SampledFrom(ringRefs).Draw(t, "ref"),
+			Early: rapid.IntRange(0, 3).Draw(t, "early") == 3,
+			Cut:   rapid.IntRange(0, 4).Draw(t, "cut") == 4,
+		})
+	}
+	return c
+}
+
+var ringOpts = []ucfg.Option{ucfg.PathSep("."), ucfg.VarExp}
+
+// nestedTail is the data of a chain of d objects below each other; the references live at both ends of a long
+// chain, at every level of a short one.
+func nestedTail(d int, ref string) map[string]interface{} {
+	m := map[string]interface{}{"r": ref, "l": []interface{}{ref, 1}}
+	for j := d - 2; j >= 0; j-- {
+		up := map[string]interface{}{"z": m}
+		if d <= 3 || j == 0 {
+			up["r"] = ref
+		}
+		m = up
+	}
+	return m
+}
+
+// attachTail builds the chain below member and returns handles to its configurations, top first (only the top
+// and the deepest one for chains the library creates).
+func attachTail(member *ucfg.Config, name string, tl RingTail) []*ucfg.Config {
+	d := tl.Depth
+	if d < 1 {
+		d = 1
+	}
+	var hs []*ucfg.Config
+	switch tl.How {
+	case 0, 3:
+		for j := 0; j < d; j++ {
+			h := ucfg.New()
+			if d <= 3 || j == 0 || j == d-1 {
+				h.Merge(map[string]interface{}{"r": tl.Ref, "l": []interface{}{tl.Ref, 1}}, ringOpts...)
+			}
+			hs = append(hs, h)
+		}
+		if tl.How == 0 {
+			member.SetChild(name, -1, hs[0], ringOpts...)
+			for j := 1; j < d; j++ {
+				hs[j-1].SetChild("z", -1, hs[j], ringOpts...)
+			}
+		} else {
+			for j := d - 1; j >= 1; j-- {
+				hs[j-1].SetChild("z", -1, hs[j], ringOpts...)
+			}
+			member.SetChild(name, -1, hs[0], ringOpts...)
+		}
+		return hs
+	case 1:
+		top, err := ucfg.NewFrom(nestedTail(d, tl.Ref), ringOpts...)
+		if err != nil {
+			return nil
+		}
+		member.SetChild(name, -1, top, ringOpts...)
+	default:
+		member.Merge(map[string]interface{}{name: nestedTail(d, tl.Ref)}, ringOpts...)
+	}
+	h, err := member.Child(name, -1, ringOpts...)
+	for j := 0; err == nil && h != nil; j++ {
+		hs = append(hs, h)
+		if j >= d-1 {
+			break
+		}
+		h, err = h.Child("z", -1, ringOpts...)
+	}
+	return hs
+}
+
+func runRing(c RingCase, r *runlog.R) error {
+	n := c.Len
+	if n < 2 {
+		n = 1
+	}
+	ring := make([]*ucfg.Config, n)
+	for i := range ring {
+		ring[i] = ucfg.New()
+		ring[i].SetString("q", -1, fmt.Sprintf("from-%d", i))
+		ring[i].SetString("k", -1, "q")
+	}
+	attach := func(parent *ucfg.Config, name string, child *ucfg.Config) {
+		switch c.Link {
+		case 1:
+			parent.SetChild(name+".k", -1, child, ringOpts...)
+		case 2:
+			parent.SetChild(name, 0, child, ringOpts...)
+		default:
+			parent.SetChild(name, -1, child, ringOpts...)
+		}
+	}
+	tails := make([][]*ucfg.Config, len(c.Tails))
+	hang := func(early bool) {
+		for ti, tl := range c.Tails {
+			if tl.Early != early {
+				continue
+			}
+			at := tl.At % n
+			name := fmt.Sprintf("z%d", ti)
+			tails[ti] = attachTail(ring[at], name, tl)
+			if tl.Cut {
+				ring[at].Remove(name, -1, ringOpts...)
+			}
+		}
+	}
+	// the chain ring[0] > ring[1] > ... > ring[n-1]; the first link is cut, then ring[0] goes below ring[n-1]
+	for i := 0; i+1 < n; i++ {
+		attach(ring[i], "x", ring[i+1])
+	}
+	hang(true)
+	if n >= 2 {
+		switch c.Detach {
+		case 1:
+			ring[0].SetString("x", -1, "gone", ringOpts...)
+		case 2:
+			ring[0].SetChild("x", -1, ucfg.MustNewFrom(map[string]interface{}{"q": "other"}), ringOpts...)
+		case 3:
+			ring[0].Merge(map[string]interface{}{"x": 1}, ringOpts...)
+		default:
+			ring[0].Remove("x", -1, ringOpts...)
+		}
+		if ch, err := ring[0].Child("x", -1, ringOpts...); err == nil && ch != nil {
+			if ring[1].Parent() != nil && (ch == ring[1] || ch == ring[1].Parent()) {
+				// still attached (a cut that did not cut): closing the ring would store a cyclic tree, which is no
+				// input of this sub-check
+				r.Discard()
+				return nil
+			}
+		}
+		attach(ring[n-1], "y", ring[0])
+	}
+	hang(false)
+
+	resolved, failed, rho := 0, 0, false
+	read := func(tc *ucfg.Config, full bool) {
+		if _, err := tc.String("r", -1, ringOpts...); err == nil {
+			resolved++
+		} else {
+			failed++
+		}
+		tc.Int("r", -1, ringOpts...)      // a type mismatch names the path of the setting
+		tc.Child("nope", -1, ringOpts...) // so does a missing setting
+		tc.String("l", 0, ringOpts...)
+		tc.Path(".")
+		tc.PathOf("r", "/")
+		var m map[string]interface{}
+		tc.Unpack(&m, ringOpts...)
+		var s struct {
+			R int `config:"r"`
+			N int `config:"nope" validate:"required"`
+		}
+		tc.Unpack(&s, ringOpts...)
+		tc.FlattenedKeys(ringOpts...)
+		if !full {
+			return
+		}
+		exercise(tc, ringOpts)
+		ucfg.NewFrom(map[string]interface{}{"c": tc, "r": "${c.r}"}, ringOpts...)
+		if c.Env {
+			e := ucfg.MustNewFrom(map[string]interface{}{"e": "${q}", "e2": "${nope2}", "e3": "${r}"}, ringOpts...)
+			eo := append([]ucfg.Option{ucfg.Env(tc)}, ringOpts...)
+			e.String("e", -1, eo...)
+			e.String("e2", -1, eo...)
+			e.Unpack(&m, eo...)
+			e.FlattenedKeys(eo...)
+		}
+	}
+	for ti, hs := range tails {
+		tl := c.Tails[ti]
+		if len(hs) == 0 {
+			continue
+		}
+		if c.Len >= 2 && strings.Contains(tl.Ref, "${") {
+			rho = true
+		}
+		for j, h := range hs {
+			if j == len(hs)-1 {
+				read(h, true)
+			} else if j == 0 || len(hs) <= 3 {
+				read(h, false)
+			}
+		}
+		// the same settings read from above, through the ring member
+		at := ring[tl.At%n]
+		name := fmt.Sprintf("z%d", ti)
+		at.String(name+".r", -1, ringOpts...)
+		at.String(name+".z.r", -1, ringOpts...)
+		at.Int(name+".z.nope", -1, ringOpts...)
+	}
+	// the ring members themselves, and the stored tree from its top (ring[1] after the cut)
+	for i := 0; i < n && i < 3; i++ {
+		var m map[string]interface{}
+		ring[i].Unpack(&m, ringOpts...)
+		ring[i].FlattenedKeys(ringOpts...)
+		ring[i].Path(".")
+		ring[i].Bool("nope", -1, ringOpts...)
+		ring[i].String("y.q", -1, ringOpts...)
+	}
+
+	r.NonTrivialIf(rho)
+	switch {
+	case c.Len < 2:
+		r.Class("no ring (control)")
+	case c.Len <= 3:
+		r.Class(fmt.Sprintf("ring of %d configurations", c.Len))
+	default:
+		r.Class("ring of 4 and more configurations")
+	}
+	r.ClassIf(c.Len >= 2 && c.Link == 1, "ring through intermediate objects (dotted names)")
+	r.ClassIf(c.Len >= 2 && c.Link == 2, "ring through lists (name and index)")
+	r.ClassIf(c.Len >= 2 && c.Detach != 0, "first link cut by overwriting (Set*/SetChild/Merge)")
+	for ti, tl := range c.Tails {
+		if len(tails[ti]) == 0 || c.Len < 2 {
+			continue
+		}
+		switch {
+		case tl.Depth <= 1:
+			r.Class("chain of 1 below the ring")
+		case tl.Depth <= 3:
+			r.Class("chain of 2-3 below the ring")
+		default:
+			r.Class("chain of 18+ below the ring")
+		}
+		r.ClassIf(tl.How == 1, "chain from NewFrom (nested objects)")
+		r.ClassIf(tl.How == 2, "chain created by Merge into the ring member")
+		r.ClassIf(tl.Early, "chain attached before the ring closes")
+		r.ClassIf(tl.Cut, "chain removed again (stale link into the ring)")
+		r.ClassIf(tl.At%n != 0, "chain below another member than the first")
+	}
+	r.ClassIf(rho && resolved > 0, "a reference below the ring resolved")
+	r.ClassIf(rho && failed > 0, "a reference below the ring ended in an error")
+	r.ClassIf(rho && c.Env, "configuration below the ring used as Env")
+	return goroutinesSettled()
+}
+
+var subRing = runlog.Register(&runlog.Sub[RingCase]{
+	Name:    "parent-rings",
+	Rule:    "shapes of the parent-link graph that attach/detach histories reach while the stored data stays a tree (a configuration keeps the parent it was attached to first, D77): a chain of 2-9 fresh configurations attached below each other by name, dotted name or name+index, the first link cut (Remove, or overwritten by SetString/SetChild/Merge) and the first configuration attached below the last - a ring of parent links; 1-3 chains of 1-3, 18 or 40 configurations hang below ring members without being on the ring (fresh configurations attached top-down or bottom-up, one NewFrom of nested objects, nested objects merged into the member; before or after the ring closes; optionally removed again so that their link into the ring is stale too) and hold a text from 19 reference spellings (plain, dotted, spliced, nested, with :default/:+/:? operators, missing, self-referencing, escaped) as setting and list element under PathSep+VarExp. Every level of a short chain, both ends of a long one, is read through String/Int (type mismatch), Child (missing), index getter, Path/PathOf, Unpack (map, struct with a required field), FlattenedKeys; the deepest one also through every entry point of `exercise`, as a NewFrom value and (1 in 4) as Env of an unrelated configuration; then the settings are read by path through the ring member, and the ring members are unpacked. Len 0 is the control (a plain tree). Must return (watchdog) and leave no goroutine behind; which root a reference finds on a ring is not asserted (the statement is silent). Non-trivial: a ring exists and a chain below it holds a text with a reference.",
+	Gen:     genRing,
+	Run:     runRing,
+	Journal: true,
+})
+
+func TestParentRings(t *testing.T) { subRing.Check(t, 1600, 150000) }
 
 // ---------------------------------------------------------------------------
 // (e) arbitrary unpack targets and (f) arbitrary merge sources
@@ -690,6 +988,40 @@ func (u *unpNoErr) Unpack(c *ucfg.Config) string { return "" }
 
 var ifaceImpl = reflect.ValueOf(&implAll{})
 
+// Config-like merge sources (D79): a Config handed over by value, a named type convertible to Config, and named
+// empty interface types that `fill` loads with such values (by value, by pointer, by pointer to pointer).
+type MyCfg ucfg.Config
+type ifCfgVal interface{}
+type ifMyCfgVal interface{}
+type ifMyCfgPtr interface{}
+type ifCfgPtrPtr interface{}
+
+var (
+	tCfgVal     = reflect.TypeOf(ucfg.Config{})
+	tMyCfg      = reflect.TypeOf(MyCfg{})
+	tIfCfgVal   = reflect.TypeOf((*ifCfgVal)(nil)).Elem()
+	tIfMyCfgVal = reflect.TypeOf((*ifMyCfgVal)(nil)).Elem()
+	tIfMyCfgPtr = reflect.TypeOf((*ifMyCfgPtr)(nil)).Elem()
+	tIfCfgPP    = reflect.TypeOf((*ifCfgPtrPtr)(nil)).Elem()
+)
+
+// cfgKinds are the base kinds that hold a Config by value somewhere: their zero value is the zero Config, which is
+// no source (reading decision 20), so they are generated pre-filled only.
+var cfgKinds = []string{"Config", "mycfg", "ifcfgval", "ifmycfgval", "ifmycfgptr", "ifcfgpp"}
+
+func liveConfig() *ucfg.Config {
+	return ucfg.MustNewFrom(map[string]interface{}{"k": 1, "o": map[string]interface{}{"x": true}, "l": []interface{}{"e"}})
+}
+
+func (o *OT) hasCfgKind() bool {
+	for _, k := range cfgKinds {
+		if o.has(k) {
+			return true
+		}
+	}
+	return false
+}
+
 var oddBase = map[string]reflect.Type{
 	"nptr": reflect.TypeOf(NPtr(nil)), "nptrptr": reflect.TypeOf(NPtrPtr(nil)), "nptrstruct": reflect.TypeOf(NPtrStruct(nil)),
 	"unpiface": reflect.TypeOf((*unpIface)(nil)).Elem(), "initiface": reflect.TypeOf((*ucfg.Initializer)(nil)).Elem(), "validiface": reflect.TypeOf((*ucfg.Validator)(nil)).Elem(),
@@ -704,6 +1036,7 @@ var oddBase = map[string]reflect.Type{
 	"nbool": reflect.TypeOf(NBool(false)), "nfloat": reflect.TypeOf(NFloat(0)), "nuint": reflect.TypeOf(NUint(0)), "ndur": reflect.TypeOf(NDur(0)),
 	"map[nstr]": reflect.TypeOf(map[NStr]int{}), "map[nstr]iface": reflect.TypeOf(map[NStr]interface{}{}), "reclist": reflect.TypeOf(recList{}),
 	"regexp": reflect.TypeOf((*regexp.Regexp)(nil)), "regexpval": reflect.TypeOf(regexp.Regexp{}), "rec": reflect.TypeOf(recNode{}),
+	"mycfg": tMyCfg, "ifcfgval": tIfCfgVal, "ifmycfgval": tIfMyCfgVal, "ifmycfgptr": tIfMyCfgPtr, "ifcfgpp": tIfCfgPP,
 	"*iface": reflect.TypeOf((*interface{})(nil)), "[]*iface": reflect.TypeOf([]*interface{}{}), "nstr": reflect.TypeOf(NStr("")), "nint": reflect.TypeOf(NInt(0)), "uint8": reflect.TypeOf(uint8(0)), "float32": reflect.TypeOf(float32(0)),
 }
 
@@ -719,25 +1052,31 @@ var (
 	oddVals = []string{"", "", "required", "nonzero", "positive", "min=1", "max=1s", "bogus", "min=x"}
 )
 
-func genOT(t *rapid.T, depth int) *OT {
+// sourceNames: the catalogue of merge sources is the one of the targets plus the Config-like kinds (placed in the
+// middle of the list: rapid prefers the front, which stays with the kinds that are rejected with an error)
+var sourceNames = append(append(append([]string{}, oddNames[:24]...), cfgKinds...), oddNames[24:]...)
+
+func genOT(t *rapid.T, depth int) *OT { return genOTOf(t, depth, oddNames) }
+
+func genOTOf(t *rapid.T, depth int, names []string) *OT {
 	k := rapid.IntRange(0, 8).Draw(t, "k")
 	if depth <= 0 || k < 4 {
-		return &OT{K: rapid.SampledFrom(oddNames).Draw(t, "odd")}
+		return &OT{K: rapid.SampledFrom(names).Draw(t, "odd")}
 	}
 	switch k {
 	case 4:
-		return &OT{K: "ptr", E: genOT(t, depth-1)}
+		return &OT{K: "ptr", E: genOTOf(t, depth-1, names)}
 	case 5:
-		return &OT{K: "slice", E: genOT(t, depth-1)}
+		return &OT{K: "slice", E: genOTOf(t, depth-1, names)}
 	case 6:
-		return &OT{K: "array", N: rapid.IntRange(0, 2).Draw(t, "n"), E: genOT(t, depth-1)}
+		return &OT{K: "array", N: rapid.IntRange(0, 2).Draw(t, "n"), E: genOTOf(t, depth-1, names)}
 	case 7:
-		return &OT{K: "map", E: genOT(t, depth-1)}
+		return &OT{K: "map", E: genOTOf(t, depth-1, names)}
 	}
 	n := rapid.IntRange(1, 3).Draw(t, "nf")
 	ot := &OT{K: "struct"}
 	for i := 0; i < n; i++ {
-		ot.F = append(ot.F, OF{Tag: rapid.SampledFrom(oddTags).Draw(t, "tag"), Val: rapid.SampledFrom(oddVals).Draw(t, "val"), T: genOT(t, depth-1)})
+		ot.F = append(ot.F, OF{Tag: rapid.SampledFrom(oddTags).Draw(t, "tag"), Val: rapid.SampledFrom(oddVals).Draw(t, "val"), T: genOTOf(t, depth-1, names)})
 	}
 	return ot
 }
@@ -821,7 +1160,15 @@ func fill(v reflect.Value, depth int) {
 		m.SetMapIndex(k, e)
 		v.Set(m)
 	case reflect.Struct:
-		if v.Type() == reflect.TypeOf(ucfg.Config{}) || v.Type() == reflect.TypeOf(time.Time{}) {
+		switch v.Type() {
+		case tCfgVal:
+			// a Config by value: a copy of one that a constructor made (the zero Config is no input)
+			v.Set(reflect.ValueOf(*liveConfig()))
+			return
+		case tMyCfg:
+			v.Set(reflect.ValueOf(MyCfg(*liveConfig())))
+			return
+		case reflect.TypeOf(time.Time{}):
 			return
 		}
 		for i := 0; i < v.NumField(); i++ {
@@ -846,6 +1193,22 @@ func fill(v reflect.Value, depth int) {
 	case reflect.Complex128:
 		v.SetComplex(complex(1, 2))
 	case reflect.Interface:
+		switch v.Type() {
+		case tIfCfgVal:
+			v.Set(reflect.ValueOf(*liveConfig()))
+			return
+		case tIfMyCfgVal:
+			v.Set(reflect.ValueOf(MyCfg(*liveConfig())))
+			return
+		case tIfMyCfgPtr:
+			m := MyCfg(*liveConfig())
+			v.Set(reflect.ValueOf(&m))
+			return
+		case tIfCfgPP:
+			p := liveConfig()
+			v.Set(reflect.ValueOf(&p))
+			return
+		}
 		if v.NumMethod() == 0 {
 			v.Set(reflect.ValueOf(map[string]interface{}{"i": 1}))
 		} else if ifaceImpl.Type().AssignableTo(v.Type()) {
@@ -876,7 +1239,7 @@ func targetConfigs(opts []ucfg.Option) []*ucfg.Config {
 
 func runTarget(c TargetCase, r *runlog.R) error {
 	// the zero value ucfg.Config{} (not created by New) is not a supported receiver or target (reading decision 20)
-	if c.T.has("Config") {
+	if c.T.hasCfgKind() {
 		r.Discard()
 		return nil
 	}
@@ -922,8 +1285,19 @@ var subTargets = runlog.Register(&runlog.Sub[TargetCase]{
 
 func TestUnpackTargets(t *testing.T) { subTargets.Check(t, 30000, 1500000) }
 
+func genSource(t *rapid.T) TargetCase {
+	c := TargetCase{T: genOTOf(t, 3, sourceNames), Filled: rapid.Bool().Draw(t, "filled")}
+	if c.T.hasCfgKind() {
+		c.Filled = true
+	}
+	return c
+}
+
 func runSource(c TargetCase, r *runlog.R) error {
-	if c.T.has("Config") {
+	cfgish := c.T.hasCfgKind()
+	// the zero value ucfg.Config{} (not created by New) is no source (reading decision 20): types that hold a Config
+	// by value are handed over pre-filled only
+	if cfgish && !c.Filled {
 		r.Discard()
 		return nil
 	}
@@ -933,6 +1307,10 @@ func runSource(c TargetCase, r *runlog.R) error {
 	if c.Filled {
 		fill(q.Elem(), 0)
 	}
+	// the same value behind two pointers and inside an interface variable
+	qq := reflect.New(q.Type())
+	qq.Elem().Set(q)
+	var boxed interface{} = q.Elem().Interface()
 	errs := 0
 	note := func(err error) {
 		if err != nil {
@@ -946,21 +1324,48 @@ func runSource(c TargetCase, r *runlog.R) error {
 		note(d.Merge(q.Elem().Interface(), o...))
 		note(d.Merge(map[string]interface{}{"k": q.Elem().Interface()}, o...))
 		note(d.Merge([]interface{}{q.Interface()}, o...))
+		note(d.Merge(qq.Interface(), o...))
+		note(d.Merge(&boxed, o...))
+		note(d.Merge(map[string]interface{}{"k": &boxed, "p": qq.Interface()}, o...))
 		_, err := ucfg.NewFrom(q.Elem().Interface(), o...)
 		note(err)
-		_, err = ucfg.NewFrom(reflect.Zero(typ).Interface(), o...)
+		_, err = ucfg.NewFrom(q.Interface(), o...)
 		note(err)
+		_, err = ucfg.NewFrom(qq.Interface(), o...)
+		note(err)
+		_, err = ucfg.NewFrom(&boxed, o...)
+		note(err)
+		if !cfgish {
+			_, err = ucfg.NewFrom(reflect.Zero(typ).Interface(), o...)
+			note(err)
+		}
 		exercise(d, opts)
 	}
 	r.NonTrivialIf(errs > 0)
 	r.ClassIf(c.Filled, "non-zero source")
+	top := c.T
+	ptrs := 0
+	for top.K == "ptr" {
+		top, ptrs = top.E, ptrs+1
+	}
+	switch top.K {
+	case "Config":
+		r.Class("top level: Config by value")
+	case "mycfg":
+		r.Class("top level: named type convertible to Config")
+	case "ifcfgval", "ifmycfgval", "ifmycfgptr", "ifcfgpp":
+		r.Class("top level: interface holding a Config-like value")
+	default:
+		r.ClassIf(cfgish, "Config-like value nested in the source")
+	}
+	r.ClassIf(cfgish && ptrs > 0 && top.hasCfgKind() && top.E == nil && top.F == nil, "top level Config-like value behind generated pointers")
 	return goroutinesSettled()
 }
 
 var subSources = runlog.Register(&runlog.Sub[TargetCase]{
 	Name:    "merge-sources",
-	Rule:    "values (zero and filled with live channels, functions, non-nil pointers, one-element collections) of the same random types given to NewFrom and Merge directly, by pointer, as a map value and as a list element, under default/append/replace; the result is then read through every entry point; must return. Non-trivial: at least one call returns an error.",
-	Gen:     genTarget,
+	Rule:    "values (zero and filled with live channels, functions, non-nil pointers, one-element collections) of the same random types, plus six Config-like kinds (ucfg.Config by value, a named type convertible to Config, named empty interfaces holding a Config by value / the named type by value / a pointer to it / a pointer to a pointer to a Config; always pre-filled from a constructor-made Config, the zero Config is no input) at the top level and nested, given to NewFrom and Merge by value, by pointer, by pointer to pointer, inside an interface variable passed by pointer, as a map value and as a list element, under default/append/replace; the result is then read through every entry point; must return. Non-trivial: at least one call returns an error.",
+	Gen:     genSource,
 	Run:     runSource,
 	Journal: true,
 })
